@@ -23,6 +23,7 @@ CONFIGS = {
     "rel-packed": ("off", "off", "packed"),
     "ovf-nodbg-packed": ("on", "off", "packed"),
     "noovf-dbg-packed": ("off", "on", "packed"),
+    "dev-nt": ("on", "on", "num-traits"),
     "dev-feat": ("on", "on", "num-traits,rkyv,serde-as-str"),
     "dev-feat-packed": ("on", "on", "num-traits,rkyv,serde-as-str,packed"),
 }
